@@ -18,6 +18,23 @@ checks = {
  "C06": dict(cat="exploration", ref="4/C06", tech="runtime monitoring: state-at-return assertion over the recorded event log and store snapshots + Go race detector",
    text="On healthy pipelines, at every StopAndWait that returns nil: written records have outcomes and source acks before source teardown, stored position == last ack, plugins torn down as often as opened, no plugin activity after the return. 'Always completes' only as bounded progress (watchdog twice, second time alone = wedge).", note=PIPE_NOTE),
 }
+
+SVC_NOTE = ("Trusted base: the harness (real services wired as pkg/conduit/runtime.go createServices does, over faultdb(in-memory) with fake plugin and lifecycle boundaries). "
+            "Single fault per call/import; sequential calls; says nothing about executions the workload did not produce.")
+checks.update({
+ "C03": dict(cat="fault_enumeration", ref="4/C03", tech="runtime monitoring: crash-point enumeration over recorded store snapshots (every history prefix judged; fresh engine restarted on sampled snapshots) + Go race detector",
+   text="Every prefix of every recorded history is a crash instant: no source ack beyond the position held by the last commit of the prefix, no commit past an unhandled record; a fresh engine is restarted on up to 6 distinct snapshots per run and the position handed to the source plugin's Open must not be past a record without terminal outcome in that prefix.", note=PIPE_NOTE + " A crash is modelled as 'store = last successful commit'; torn writes inside the store engine are out of scope."),
+ "C14": dict(cat="fault_enumeration", ref="4/C14", tech="runtime monitoring with exhaustive single-store-fault enumeration per API call (deterministic replay), small executable effect model as oracle",
+   text="Random sequences (32 ops quick, 40 thorough) of the orchestrator's Create/Update/Delete/UpdateDLQ calls on pipelines, connectors and processors with valid and invalid arguments over the real services; for every call every single store operation it performs (newtx, set, delete, commit) is failed once on a fresh rig after replaying the history; after every call: before/after equality for failed calls, a reference effect model for successful calls, freshly initialised services on a copy of the store, two-way reference closure, guard refusal for running and file-provisioned targets, and a fault-free retry probe for hidden state.", note=SVC_NOTE + " Get/GetKeys never occur inside API calls; CreatedAt/UpdatedAt divergence after a failed call is tolerated and counted."),
+ "C15": dict(cat="fault_enumeration", ref="4/C15", tech="runtime monitoring: grammar-generated config pairs and chains through the real provisioning service; per-operation store-fault and plugin-refusal enumeration by deterministic replay; oracle = the config itself plus before/after equality of three views",
+   text="Every ordered pair of a 40-config pool of one pipeline (6 pools thorough, 400 sampled pairs quick) plus chains of 3-6 imports is imported via Import and Plan+ApplyPlan and judged for nil error, convergence (live services and fresh-Init view equal the config incl. order, workers, conditions, DLQ), idempotence (empty Plan, byte-identical store apart from timestamps) and kept connector State; each import is replayed once per failing point (each k-th Set/NewTransaction/Commit and each k-th plugin NewProcessor/NewDispenser): after an error services, fresh-Init view and raw store must equal the state before.", note=SVC_NOTE + " Faults landing inside the rollback of an already failed import are not judged; pipelines never ran."),
+ "C17": dict(cat="exploration", ref="4/C17", tech="runtime monitoring: restart round-trip monitor over the real stores/services (in-memory and badger) with per-field value generators and an independent reader for older-format documents",
+   text="Exhaustive over all 256 one-byte and all 65,536 two-byte positions through three write paths (thorough), every Unicode scalar value in string fields and map keys, every pipeline status, removal of each optional field from the golden documents; sampled long/random values, timestamps, integer extremes, long reference lists, pre-v0.4.1 documents and random API workloads with restarts. Every entity listed after restart is compared field by field with what was stored; a running pipeline must come back as to-be-resumed and be started by lifecycle Init (both engines).", note="Restart = fresh service objects on the same database.DB (badger really closed and reopened); nil == empty; times compared as instants; invalid UTF-8 Go strings and sub-minute zone offsets are exercised but only recorded (outside 'any Unicode text')."),
+ "C18": dict(cat="exploration", ref="4/C18", tech="runtime monitoring: differential oracle (independent classifier) with exhaustive/boundary/random address sweeps; canary listeners + strace connect(2) log around the real request path under a scripted resolver; randomized policy pairs",
+   text="Real egress.Refuse compared with an independent integer classifier of the documented refused floor over all 2^32 IPv4 addresses in raw and v4-mapped form (thorough), strided sweeps of the other embedding forms, all range edges +-1 in 9 forms and random structured IPv6: no floor address accepted. Real egress.Service.Do under 22 hostile scenario kinds observed by loopback canary listeners and a strace connect(2) log: no connection to a refused address that is not an exact carved-out (IP,port). Random (per-processor, ceiling) pairs through ResolvePolicy and processor.Service: effective hosts, secret refs, timeout and size never exceed the ceiling.", note="Only the documented floor is demanded; wider refusals, followed redirects and honoured proxy settings whose every hop passes the dial gate are counted as observations. No real network; DNS is a scripted resolver; TLS success paths and host-side timeout/size enforcement are not exercised."),
+ "C20": dict(cat="exploration", ref="4/C20", tech="runtime monitoring: generator-labelled error trees built with the real constructors, real classifiers called on the real values, smallest-failing-subtree identities",
+   text="Exhaustive up to depth 3 (core constructor alphabet; full 17-constructor alphabet to depth 2; every registered code x 9 coded forms x plain-wrapper contexts) plus random trees of depth <= 12: for every generated error tree IsFatalError, conduiterr.Get, errors.Is for 20 sentinels, ToStatus->FromStatus, exitcode.ExitCode and the http/api/status functions must agree with ground-truth labels computed from the constructors' documented semantics.", note="Not a proof beyond the enumerated depth; codes registered under /repo/cmd internal packages are not importable; WithUnknownReason on a coded error and FromStatus of the synthetic internal.unknown code are recorded as observations."),
+})
 ALL = ["C%02d" % i for i in range(1, 21)]
 na_reason = "check under construction in this round (see DESIGN.md section 4 for the planned monitor); not claimed until it runs silent on the unchanged tree and catches seeded mutants"
 m = {
